@@ -9,6 +9,7 @@
 #include <fcppt/log/optional_level.hpp>
 #include <fcppt/log/detail/context_tree_node.hpp>
 #include <fcppt/log/impl/convert_level.hpp>
+#include <fcppt/log/impl/verif_sched_point.hpp>
 #include <fcppt/config/external_begin.hpp>
 #include <utility>
 #include <fcppt/config/external_end.hpp>
@@ -43,6 +44,8 @@ fcppt::log::name const &fcppt::log::detail::context_tree_node::name() const { re
 
 fcppt::log::optional_level fcppt::log::detail::context_tree_node::level() const
 {
+  FCPPT_VERIF_SCHED_POINT(5)
+
   return fcppt::enum_::from_int<fcppt::log::level>(
       this->atomic_level_.load() // NOLINT(fuchsia-default-arguments-calls)
   );
@@ -50,5 +53,7 @@ fcppt::log::optional_level fcppt::log::detail::context_tree_node::level() const
 
 void fcppt::log::detail::context_tree_node::level(fcppt::log::optional_level const &_level)
 {
+  FCPPT_VERIF_SCHED_POINT(6)
+
   this->atomic_level_ = fcppt::log::impl::convert_level(_level);
 }
